@@ -15,8 +15,6 @@
 package redis
 
 import (
-	"strings"
-
 	"github.com/cybergarage/go-redis/redis/proto"
 )
 
@@ -25,12 +23,30 @@ type Executor func(*Conn, string, Arguments) (*Message, error)
 type Executors map[string]Executor
 
 // executeCommand handles a client command message.
+// upperASCII upper-cases the ASCII letters of a command or option name and leaves every other byte as it is.
+// Names are matched the way Redis matches them: a letter outside ASCII whose Unicode upper case happens to be an
+// ASCII letter (U+017F, U+0131, ...) does not spell a command.
+func upperASCII(s string) string {
+	for i := 0; i < len(s); i++ {
+		if 'a' <= s[i] && s[i] <= 'z' {
+			b := []byte(s)
+			for j := i; j < len(b); j++ {
+				if 'a' <= b[j] && b[j] <= 'z' {
+					b[j] -= 'a' - 'A'
+				}
+			}
+			return string(b)
+		}
+	}
+	return s
+}
+
 func (server *Server) executeCommand(conn *Conn, cmd string, args Arguments) (*Message, error) {
 	if server.userCommandHandler == nil {
 		return NewErrorNotSupportedMessage(cmd), nil
 	}
 
-	upperCmd := strings.ToUpper(cmd)
+	upperCmd := upperASCII(cmd)
 	cmdExecutor, ok := server.commandExecutors[upperCmd]
 	if !ok {
 		return NewErrorNotSupportedMessage(cmd), nil
